@@ -22,8 +22,7 @@ static long fd_calls, fd_budget ;
 ssize_t __wrap_read (int fd, void *buf, size_t n) { if (fd_budget > 0 && ++fd_calls > fd_budget) vh_logical_hang ("read()/lseek() call budget exhausted on the descriptor route") ; return __real_read (fd, buf, n) ; }
 off_t __wrap_lseek (int fd, off_t off, int wh) { if (fd_budget > 0 && ++fd_calls > fd_budget) vh_logical_hang ("read()/lseek() call budget exhausted on the descriptor route") ; return __real_lseek (fd, off, wh) ; }
 
-typedef struct { unsigned char *d ; long len ; int format, ch, meta ; } CORP ;
-static CORP corpus [1400] ; static int ncorp ;
+#include "mutate.h"
 
 static void add_meta (SNDFILE *s, int format, int level)
 {	int maj = format & SF_FORMAT_TYPEMASK ;
@@ -51,57 +50,6 @@ static void build_corpus (void)
 		d = malloc (2 * N * c) ; for (i = 0 ; i < N * c ; i++) d [i] = (short) (10000 * sin (i * .05) + (i * 7919) % 200) ;
 		sf_writef_short (s, d, N) ; free (d) ; sf_close (s) ;
 		if (m.len > 0) { corpus [ncorp].d = m.d ; corpus [ncorp].len = (long) m.len ; corpus [ncorp].format = format ; corpus [ncorp].ch = c ; corpus [ncorp].meta = lv ; ncorp++ ; } else mv_free (&m) ;
-		}
-}
-
-/* ---- mutators */
-static void put32 (unsigned char *p, uint32_t v, int big) { if (big) { p [0] = v >> 24 ; p [1] = v >> 16 ; p [2] = v >> 8 ; p [3] = v ; } else { p [3] = v >> 24 ; p [2] = v >> 16 ; p [1] = v >> 8 ; p [0] = v ; } }
-static uint32_t get32 (const unsigned char *p, int big) { return big ? ((uint32_t) p [0] << 24 | p [1] << 16 | p [2] << 8 | p [3]) : ((uint32_t) p [3] << 24 | p [2] << 16 | p [1] << 8 | p [0]) ; }
-static int is_marker (const unsigned char *p) { int k ; for (k = 0 ; k < 4 ; k++) if (!((p [k] >= 'A' && p [k] <= 'Z') || (p [k] >= 'a' && p [k] <= 'z') || p [k] == ' ' || (p [k] >= '0' && p [k] <= '9'))) return 0 ; return 1 ; }
-
-static void mutate (MEMF *m, const CORP *base, char *desc, size_t dlen)
-{	int nm = 1 + vh_rint (4), j ; long hdr = base->len < 400 ? base->len : 400 ; size_t dl = 0 ;
-	mv_from (m, base->d, base->len) ; m->cap = m->len + 1 ; desc [0] = 0 ;
-	for (j = 0 ; j < nm ; j++)
-	{	int kind = vh_rint (13) ; long pos = (vh_rint (3)) ? vh_rint ((int) hdr) : vh_rint ((int) m->len) ; char one [80] ; one [0] = 0 ;
-		if (m->len < 8) break ; if (pos >= m->len) pos = m->len - 1 ;
-		switch (kind)
-		{	case 0 : m->d [pos] = (unsigned char) vh_rnd () ; snprintf (one, 80, "byte@%ld", pos) ; break ;
-			case 1 : m->d [pos] ^= 1 << vh_rint (8) ; snprintf (one, 80, "bit@%ld", pos) ; break ;
-			case 2 : case 3 : if (pos + 4 <= m->len)
-				{	static const uint32_t hv [] = { 0, 1, 2, 0x7fffffff, 0xffffffff, 0xfffffffe, 0x80000000, 0xffff, 0x10000, 1024, 1025, 65535, 0x7ffffffe, 255, 256 } ; uint32_t v = vh_rint (3) ? hv [vh_rint (15)] : (uint32_t) vh_rint (70000) ; int big = vh_rint (2) ;
-					if (vh_rint (5) == 0) v = (uint32_t) (m->len - pos + vh_rint (9) - 4) ;
-					put32 (m->d + pos, v, big) ; snprintf (one, 80, "u32@%ld=%x%s", pos, v, big ? "BE" : "LE") ; } break ;
-			case 4 : if (pos + 4 <= m->len) { int big = vh_rint (2) ; uint32_t v = get32 (m->d + pos, big) + (uint32_t) (vh_rint (9) - 4) ; put32 (m->d + pos, v, big) ; snprintf (one, 80, "inc@%ld", pos) ; } break ;
-			case 5 : if (pos + 2 <= m->len) { static const uint16_t hv [] = { 0, 1, 0xffff, 0x7fff, 0x8000, 1024, 1025, 3, 255 } ; uint16_t v = hv [vh_rint (9)] ; if (vh_rint (2)) { m->d [pos] = v >> 8 ; m->d [pos + 1] = v & 255 ; } else { m->d [pos + 1] = v >> 8 ; m->d [pos] = v & 255 ; } snprintf (one, 80, "u16@%ld=%x", pos, v) ; } break ;
-			case 6 : m->len = pos > 4 ? pos : 4 ; snprintf (one, 80, "trunc@%ld", pos) ; break ;
-			case 7 : case 8 :	/* chunk aware: find a printable 4-char marker, hit the size field after it */
-			{	long p, tries = 0 ; for (p = vh_rint ((int) hdr) ; p + 8 <= m->len && tries < 400 ; p++, tries++) if (is_marker (m->d + p)) break ;
-				if (p + 8 <= m->len && tries < 400)
-				{	static const uint32_t hv [] = { 0, 1, 3, 0x7fffffff, 0xffffffff, 0xfffffffe, 0x80000000, 7 } ; int big = vh_rint (2) ; uint32_t old = get32 (m->d + p + 4, big), v ;
-					switch (vh_rint (4)) { case 0 : v = hv [vh_rint (8)] ; break ; case 1 : v = old + 1 ; break ; case 2 : v = old - 1 ; break ; default : v = (uint32_t) (m->len - p - 8 + vh_rint (5) - 2) ; }
-					put32 (m->d + p + 4, v, big) ; snprintf (one, 80, "chunksize@%ld(%.4s)=%x", p, m->d + p, v) ; } } break ;
-			case 9 :	/* duplicate or delete a region that starts at a marker */
-			{	long p, tries = 0, n ; for (p = 12 + vh_rint ((int) hdr) ; p + 8 <= m->len && tries < 400 ; p++, tries++) if (is_marker (m->d + p)) break ;
-				if (p + 8 <= m->len && tries < 400)
-				{	n = 8 + vh_rint (64) ; if (p + n > m->len) n = m->len - p ;
-					if (vh_rint (2)) { memmove (m->d + p, m->d + p + n, m->len - p - n) ; m->len -= n ; snprintf (one, 80, "del@%ld+%ld", p, n) ; }
-					else { unsigned char *nd = malloc (m->len + n + 1) ; memcpy (nd, m->d, p + n) ; memcpy (nd + p + n, m->d + p, m->len - p) ; free (m->d) ; m->d = nd ; m->len += n ; m->cap = m->len + 1 ; snprintf (one, 80, "dup@%ld+%ld", p, n) ; } } } break ;
-			case 10 :	/* splice bytes from another corpus file */
-			{	const CORP *o = &corpus [vh_rint (ncorp)] ; long n = 4 + vh_rint (60), sp = vh_rint ((int) (o->len < 300 ? o->len : 300)) ; if (sp + n > o->len) n = o->len - sp ; if (pos + n > m->len) n = m->len - pos ;
-				if (n > 0) { memcpy (m->d + pos, o->d + sp, n) ; snprintf (one, 80, "splice@%ld+%ld", pos, n) ; } } break ;
-			case 11 :	/* insert a large skippable chunk (bigger than the 16 KiB skip buffer / the header cache) in front of a chunk marker */
-			{	long p, tries = 0, n = (vh_rint (3) == 0 ? 100 : 17000) + vh_rint (60000), k ; int big = vh_rint (2) ; unsigned char *nd ;
-				static const char *ids [] = { "JUNK", "PAD ", "junk", "FLLR", "xyzw", "free", "LIST", "(c) ", "ANNO" } ;
-				for (p = 12 + vh_rint ((int) hdr) ; p + 8 <= m->len && tries < 400 ; p++, tries++) if (is_marker (m->d + p)) break ;
-				if (p + 8 <= m->len && tries < 400)
-				{	nd = malloc (m->len + n + 9) ; memcpy (nd, m->d, p) ; memcpy (nd + p, ids [vh_rint (9)], 4) ; put32 (nd + p + 4, (uint32_t) n, big) ;
-					for (k = 0 ; k < n ; k++) nd [p + 8 + k] = (k & 7) ? 0 : (unsigned char) vh_rnd () ;
-					memcpy (nd + p + 8 + n, m->d + p, m->len - p) ; free (m->d) ; m->d = nd ; m->len += n + 8 ; m->cap = m->len + 1 ; snprintf (one, 80, "bigchunk@%ld+%ld%s", p, n, big ? "BE" : "LE") ; } } break ;
-			default :	/* random garbage run */
-			{	long n = 1 + vh_rint (24), k ; if (pos + n > m->len) n = m->len - pos ; for (k = 0 ; k < n ; k++) m->d [pos + k] = (unsigned char) vh_rnd () ; snprintf (one, 80, "noise@%ld+%ld", pos, n) ; } break ;
-			}
-		if (dl + strlen (one) + 2 < dlen) dl += snprintf (desc + dl, dlen - dl, "%s ", one) ;
 		}
 }
 
